@@ -429,3 +429,26 @@ func VH_replLong(nbytes int) {
 	verifAssert("every-line-responds-as-in-a-fresh-session", verifProcStdout() == wantOut)
 	verifAssert("every-line-diagnosed-as-in-a-fresh-session", verifProcStderr() == wantErr)
 }
+
+// crlfPool: stdin lines as a CRLF text delivers them (the line feed is added by the stdin
+// model; the carriage return is part of the line and is a blank that ইনপুট trims).
+var crlfPool = []string{"a\r", " b \r", "\r", "c"}
+
+// VH_inputCRLF (C13/C19): two reads of a CRLF stdin. The program's output depends on the bytes
+// of stdin only — not on how the operating system cuts them into reads (every cut is explored
+// when the reader's splitting is the repository's own code).
+func VH_inputCRLF(nlines int) {
+	lines := make([]string, nlines)
+	for i := 0; i < nlines; i++ {
+		lines[i] = crlfPool[verifChoice(len(crlfPool))]
+	}
+	verifSetArgs("borno", "a.bn")
+	verifSetFile(true, progInput2)
+	verifSetStdinText(lines...)
+	verifSetStdinFinalNewline(true)
+	verifRunMain()
+	out, errText, status := verifProcStdout(), verifProcStderr(), verifProcExit()
+	want := norm.NFC.String(strings.TrimSpace(lines[0])) + "\n" + "50%> " + norm.NFC.String(strings.TrimSpace(lines[1])) + "\n"
+	verifAssert("each-read-consumes-exactly-the-next-line", out == want)
+	verifAssert("reads-succeed", status == 0 && errText == "")
+}
